@@ -11,6 +11,7 @@ import importlib
 import json
 import multiprocessing as mp
 import os
+import shutil
 import sys
 import time
 import traceback
@@ -73,11 +74,56 @@ def _task(args):
             res = core.run_machine(sub, a, b, seed_val, tier, known)
         elif kind == 'enum':
             res = core.run_enum_chunk(sub, tier, a, b, known)
+        elif kind == 'fuzz':
+            res = _run_fuzz(prop, subname, seed_val, a)
         res['wall'] = time.time() - t0
         return res
     except BaseException:
         return dict(sub=subname, evaluations=0, nt=set(), classes=Counter(), excluded=Counter(), samples=[],
                     fail=None, error=traceback.format_exc(), exhaustive=False, wall=0)
+
+
+def fuzz_available():
+    try:
+        sys.path.insert(0, os.path.join(HERE, '.deps')) if os.path.join(HERE, '.deps') not in sys.path else None
+        import importlib.util
+        return importlib.util.find_spec('atheris') is not None
+    except Exception:
+        return False
+
+
+def _run_fuzz(prop, subname, seed_val, runs):
+    """one coverage-guided campaign (pv.fuzz) in a sub-process of its own: atheris.Fuzz() never returns"""
+    import subprocess
+    import tempfile
+    fd, out = tempfile.mkstemp(prefix='pv-fuzz-', suffix='.json')
+    os.close(fd)
+    os.remove(out)
+    env = dict(os.environ, PYTHONPATH=os.pathsep.join([os.environ.get('PYTHONPATH', ''), os.path.join(HERE, '.deps')]))
+    work = tempfile.mkdtemp(prefix='pv-corpus-')
+    try:
+        committed = os.path.join(HERE, 'corpus', prop, subname)
+        if os.path.isdir(committed):          # libFuzzer writes new units into its corpus directory: work on a copy
+            for fn in sorted(os.listdir(committed)):
+                shutil.copy(os.path.join(committed, fn), work)
+        p = subprocess.run([sys.executable, '-W', 'ignore', '-m', 'pv.fuzz', prop, subname, out, '--runs', str(runs), '--seed', str(seed_val),
+                            '--corpus', work], env=env, cwd=HERE, stdout=subprocess.DEVNULL, stderr=subprocess.PIPE, text=True)
+        if not os.path.exists(out):
+            raise RuntimeError('pv.fuzz left no result (exit %s): %s' % (p.returncode, (p.stderr or '')[-1500:]))
+        r = json.load(open(out))
+    finally:
+        shutil.rmtree(work, ignore_errors=True)
+        for f in (out, out + '.tmp'):
+            if os.path.exists(f):
+                os.remove(f)
+    if r.get('error') and 'evaluations' not in r:
+        raise RuntimeError(r['error'])
+    return dict(sub=subname + '@fuzz', evaluations=r['evaluations'], nt=set(r['nt']), classes=Counter(r['classes']), excluded=Counter(r['excluded']),
+                samples=r['samples'], fail=tuple(r['fail']) if r['fail'] else None, error=r['error'], exhaustive=False, wall=r['wall'])
+
+
+FUZZ_QUICK = 0.5      # coverage-guided evaluations per sub-check in the quick tier, as a fraction of its random cases (one process)
+FUZZ_THOROUGH = 4     # processes per sub-check in the thorough tier, each with as many byte strings as 2 random shards have cases
 
 
 def _tasks(prop, mod, tier, seed, only, scale):
@@ -112,6 +158,17 @@ def _tasks(prop, mod, tier, seed, only, scale):
             else:
                 for i in range(sub.chunks):
                     tasks.append((prop, sub.name, tier, 'enum', 0, i, sub.chunks))
+    if os.environ.get('PV_FUZZ', '1') != '0' and fuzz_available():
+        for sub in mod.SUBS:
+            if (only and sub.name not in only) or sub.kind != 'hyp' or getattr(sub, 'fuzz', True) is False:
+                continue
+            if tier == 'quick':
+                # only from a committed corpus (corpus/<ID>/<sub>/): a campaign from the empty corpus spends a quick budget learning the format
+                if os.path.isdir(os.path.join(HERE, 'corpus', prop, sub.name)):
+                    tasks.append((prop, sub.name, tier, 'fuzz', seed * 1000 + 300, max(200, int(sub.quick * scale * FUZZ_QUICK)), 0))
+            else:
+                for sh in range(FUZZ_THOROUGH):
+                    tasks.append((prop, sub.name, tier, 'fuzz', seed * 1000 + 301 + sh, max(1000, int(sub.thorough * scale * 2)), 0))
     return tasks
 
 
@@ -252,10 +309,12 @@ def main(argv=None):
     for name, a in agg.items():
         if a['fail']:
             spec, msg = a['fail']
-            violations.append((name, _write_replay(prop, name, spec, msg, seed), msg))
+            violations.append((name, _write_replay(prop, name.split('@')[0], spec, msg, seed), msg))
 
     # ---- vacuity floors
     for name, a in agg.items():
+        if name.endswith('@fuzz'):
+            continue          # the floors describe the random generator; a coverage-guided corpus has a distribution of its own
         sub = subs_by_name[name]
         if a['fail'] or not a['evaluations']:
             continue
@@ -285,7 +344,9 @@ def main(argv=None):
         property_id=prop, tier=args.tier, seed=seed, level='exploration',
         coverage=dict(
             evaluations=evaluations, distinct_nontrivial=dn,
-            rule=' || '.join('%s: %s' % (s.name, s.rule) for s in mod.SUBS if s.name in agg),
+            rule=' || '.join('%s: %s' % (s.name, s.rule) for s in mod.SUBS if s.name in agg) + (
+                ' || <sub>@fuzz: the same generator and oracle, the choice sequence supplied by libFuzzer (atheris) with python-level coverage feedback '
+                'from every pyg_base module (value profile on): byte strings reaching new branches are kept and mutated' if any(n.endswith('@fuzz') for n in agg) else ''),
             samples=samples,
             exhaustive=bool(agg) and all(a['exhaustive'] for a in agg.values()),
             replayed_regression_inputs=n_replayed,
